@@ -452,8 +452,20 @@ class Facts:
         for k, a in enumerate(call["argv"]):
             blk["stmts"].append({"k": "assign", "lhs": {"l": loff + 1 + k}, "rv": {"use": a}, "sp": call.get("sp")})
         blk["term"] = {"k": "goto", "bb": boff, "sp": call.get("sp"), "inlined": h.path}
+        # a generic helper's type parameters are whatever the call site passes: `is_x::<B>()` inlined must read `B`, not `T`
+        tmap = {}
+        hp, ct = h.raw.get("tparams") or [], call["callee"].get("targs") or []
+        if hp and len(hp) == len(ct):
+            tmap = {a: b for a, b in zip(hp, ct) if a != b and re.match(r"^\w+$", a)}
         for hb in h.blocks:
             nb = {"stmts": self._shift(hb["stmts"], loff, boff), "term": self._shift(hb["term"], loff, boff)}
+            if tmap and nb["term"]["k"] == "call" and nb["term"]["callee"].get("targs"):
+                cal = dict(nb["term"]["callee"])
+                sub = lambda x: re.sub(r"\b(%s)\b" % "|".join(map(re.escape, tmap)), lambda m: tmap[m.group(1)], x)
+                cal["targs"] = [sub(x) for x in cal["targs"]]
+                if cal.get("full"):
+                    cal["full"] = sub(cal["full"])
+                nb["term"]["callee"] = cal
             if hb.get("cleanup"):
                 nb["cleanup"] = True
             t = nb["term"]
